@@ -624,7 +624,21 @@ impl PDFObjP<'_> {
                     buf.set_cursor_unsafe(n1_end_cursor);
                     return Ok(PDFObjT::Integer(n1))
                 }
-                if prefix.unwrap() {
+                // The 'R' keyword has to end its token: '1 2 RG' is two
+                // integers followed by an operator, not a reference.
+                let at_ref = if prefix.unwrap() {
+                    let r_cursor = buf.get_cursor();
+                    buf.incr_cursor_unsafe();
+                    let next = buf.peek();
+                    buf.set_cursor_unsafe(r_cursor);
+                    match next {
+                        None => true,
+                        Some(c) => b" \0\t\r\n\x0c()<>[]{}/%".contains(&c),
+                    }
+                } else {
+                    false
+                };
+                if at_ref {
                     // This looks like an indirect reference.  Rewind
                     // and call its parser (though we could optimize
                     // this case since we've actually already parsed
